@@ -4,6 +4,7 @@ import os
 import tempfile
 
 import numpy as np
+import math
 import torch
 from hypothesis import strategies as st
 
@@ -22,7 +23,7 @@ RULE = ("(index) enumeration: for n 1..10 EVERY row k of generate_hilbert_space(
         "Non-trivial = (index) n >= 3, (positions) a non-palindromic tag, (files) >= 2 distinct bases incl. an all-Z row.")
 RULE_EXT = ('Extended as built: numpy integer / keyword argument forms, returned spaces edited in place three times (no shared cache), default max_size of a 21-qubit model, files rewritten at the same paths, tiny entries, D in {2,4,8,16}.')
 RULE = RULE + " " + RULE_EXT
-ASSUMPTIONS = ["targets compared to within one float32 ulp of the written number (documented single precision)",
+ASSUMPTIONS = ["targets compared with the written number rounded to float32, to 0.02 float32 ulp (documented single precision)",
                "single-row / single-column files are not generated (np.loadtxt squeezes them; the property speaks of contents)"]
 
 
@@ -202,13 +203,16 @@ def files(draw, tier):
     return {"N": N, "n": n, "samples": draw(st.lists(st.integers(0, 2 ** n - 1), min_size=N, max_size=N)), "bases": bases,
             "psi": {"re": tiny(draw(st.lists(fl, min_size=D, max_size=D)), draw(st.integers(0, 3))), "im": tiny(draw(st.lists(fl, min_size=D, max_size=D)), draw(st.integers(0, 3)))},
             "mat": {"re": tiny(draw(st.lists(fl, min_size=D * D, max_size=D * D)), draw(st.integers(0, 3))), "im": draw(st.lists(fl, min_size=D * D, max_size=D * D))},
-            "which": draw(st.sampled_from(["psi", "dm", "dm_missing_real", "dm_missing_imag", "samples_only"])), "intfmt": draw(st.booleans())}
+            "which": draw(st.sampled_from(["psi", "dm", "dm_missing_real", "dm_missing_imag", "samples_only"])), "intfmt": draw(st.booleans()),
+            "normalised_target": draw(st.booleans())}      # the ordinary case: the written wavefunction has unit norm / the written matrix unit trace
 
 
 def f32_close(got, want64):
     want32 = np.asarray(want64, dtype=np.float64).astype(np.float32).astype(np.float64)
     ulp = np.spacing(np.abs(want32).astype(np.float32)).astype(np.float64)
-    return np.all(np.abs(np.asarray(got, dtype=np.float64) - want32) <= ulp)
+    # the loaders read single precision: the value that comes back is the written number rounded to float32 - to a small fraction of a
+    # float32 ulp (a renormalisation or any other "harmless" touch-up of the entries moves them by more)
+    return np.all(np.abs(np.asarray(got, dtype=np.float64) - want32) <= 0.02 * ulp)
 
 
 def _second_load(c2, tmp):
@@ -242,6 +246,11 @@ def check_files(c, reuse_dir=None):
             for b in uniq:
                 f.write(b + "\n")
         Dm = len(c["psi"]["re"])
+        if c.get("normalised_target"):
+            nrm = math.sqrt(sum(a * a + b * b for a, b in zip(c["psi"]["re"], c["psi"]["im"])))
+            tr = sum(c["mat"]["re"][i * Dm + i] for i in range(Dm))
+            c = dict(c, psi={k: [x / nrm for x in v] for k, v in c["psi"].items()} if nrm > 1e-3 else c["psi"],
+                     mat={k: [x / tr for x in v] for k, v in c["mat"].items()} if abs(tr) > 1e-3 else c["mat"])
         with open(P("psi.txt"), "w") as f:
             for a, b in zip(c["psi"]["re"], c["psi"]["im"]):
                 f.write(f"{a:.18e} {b:.18e}\n")
